@@ -4,7 +4,7 @@ From Coq Require Import QArith Qcanon.
 Local Open Scope nat_scope.
 
 Lemma ex_run_ok :
-  let x := hybrid_run true w_fs [KMH; KMH] [[1]; [2]]%Q [1; 1]%Q [] w_sc [] in
+  let x := hybrid_run true (qjoint w_fs) [KMH; KMH] [[1]; [2]]%Q [1; 1]%Q [] w_sc [] in
   length (g_ss (r_st x)) = length (g_cur (r_st x)) /\ insync s_pt (r_st x) /\ r_log x = [].
 Proof.
   cbn zeta. split; [reflexivity|]. split; [|reflexivity].
